@@ -11,7 +11,7 @@ namespace Ldk.Driver
 open Ldk Ldk.ChainSync
 
 inductive Lie where
-  | err | other (id : Nat) | pow | height | work | merkle
+  | err (transient : Bool) | other (id : Nat) | pow | height | work | merkle
 deriving Repr
 
 structure C20State where
@@ -32,7 +32,7 @@ def c20Adv (st : C20State) : Adv :=
       | some _ => none
       | none => some st.best,
     header := fun k h => match st.sched.lookup k with
-      | some .err => none
+      | some (.err _) => none
       | some (.other x) => (hdrOf st.tree x).map (rawOf · true)
       | some .pow => (hdrOf st.tree h).map (rawOf · false)
       | some .height => (hdrOf st.tree h).map (fun b => { rawOf b true with height := b.height + 1 })
@@ -40,27 +40,30 @@ def c20Adv (st : C20State) : Adv :=
       | some .merkle => none
       | none => if st.hidden.contains h then none else (hdrOf st.tree h).map (rawOf · true),
     block := fun k h => match st.sched.lookup k with
-      | some .err => none
+      | some (.err _) => none
       | some (.other x) => (hdrOf st.tree x).map (fun b => ⟨st.fulls.contains x, b.hash, true, true, true⟩)
       | some .pow => some ⟨false, h, false, true, true⟩
       | some .merkle => some ⟨true, h, true, false, true⟩
       | some _ => none
       | none => if st.hidden.contains h then none else (hdrOf st.tree h).map (fun b => ⟨st.fulls.contains h, b.hash, true, true, true⟩),
-    bitcoin := st.bitcoin }
+    bitcoin := st.bitcoin,
+    transient := fun k => match st.sched.lookup k with
+      | some (.err tr) => tr
+      | _ => false }
 
 def c20Source (st : C20State) : Source := (c20Adv st).toSource st.tree
 
 def parseLie (s : String) : Nat × Lie :=
   match s.splitOn ":" with
-  | [k, "t"] => (nat! k, .err)
-  | [k, "p"] => (nat! k, .err)
+  | [k, "t"] => (nat! k, .err true)
+  | [k, "p"] => (nat! k, .err false)
   | [k, "hash", x] => (nat! k, .other (nat! x))
   | [k, "pow"] => (nat! k, .pow)
   | [k, "height"] => (nat! k, .height)
   | [k, "work"] => (nat! k, .work)
   | [k, "merkle"] => (nat! k, .merkle)
-  | k :: _ => (nat! k, .err)
-  | [] => (0, .err)
+  | k :: _ => (nat! k, .err false)
+  | [] => (0, .err false)
 
 def showNotif : Notif → String
   | .disconnected h ht => s!"D {h} {ht}"
@@ -101,7 +104,7 @@ def c20 : Drv where
       | some cl =>
         let o := pollBestTip (c20Source st) cl
         let head := match o.result with
-          | .error _ => "err"
+          | .error e => if e.isTransient then "err t" else "err p"
           | .ok (.common, b) => s!"common - {if b then 1 else 0}"
           | .ok (.better t, b) => s!"better {t.hash} {if b then 1 else 0}"
           | .ok (.worse t, b) => s!"worse {t.hash} {if b then 1 else 0}"
